@@ -81,7 +81,7 @@ def mk_sym_format(it: Any, ctx: Ctx, name: str, rounding: str, srbits_given: boo
     return it.call(cls, [E, M], kw)
 
 
-def _ste_job(which: str, rounding: str, srbits_given: bool) -> Callable[[], Record]:
+def _ste_job(which: str, rounding: str, srbits_given: bool, after_other: bool = False) -> Callable[[], Record]:
     def run() -> Record:
         qual = FM + "FPFormat." + which
         tag = f"C15:formats.FPFormat.{which}"
@@ -98,6 +98,11 @@ def _ste_job(which: str, rounding: str, srbits_given: bool) -> Callable[[], Reco
                     other = it.call(lookup_fn(it, FM + "FPFormat"), [fmt.attrs["exponent_bits"], fmt.attrs["mantissa_bits"]], {"rounding": rounding, "srbits": 1})
                     x0 = leaf(ctx, "x_earlier", Shape([Run(ctx, "a0")]))
                     it.call(it.getattr(other, which), [x0], {})
+                if after_other:
+                    # HISTORY: the SAME format object was used earlier for the other direction (equal forward
+                    # and backward formats share one object when formats are interned); seeded change C15-7
+                    xo = leaf(ctx, "x_other_direction", Shape([Run(ctx, "ao")]))
+                    it.call(it.getattr(fmt, "quantise_bwd" if which == "quantise_fwd" else "quantise_fwd"), [xo], {})
                 body = it.call(it.getattr(fmt, which), [x], {})
                 spec = (spec_quantise_fwd if which == "quantise_fwd" else spec_quantise_bwd)(it, fmt, x)
                 return body, spec, x
@@ -114,11 +119,13 @@ def _ste_job(which: str, rounding: str, srbits_given: bool) -> Callable[[], Reco
             frame_obligations(ctx, f"{tag}:frame")
             return None
 
-        return run_config(qual, {"rounding": rounding, "srbits_given": srbits_given}, build, post)
+        return run_config(qual, dict({"rounding": rounding, "srbits_given": srbits_given}, **({"after_other_direction_on_same_object": True} if after_other else {})), build, post)
 
     return run
 
 
+for _w in ("quantise_fwd", "quantise_bwd"):
+    register(Job(f"c15:{_w}[nearest,after_other_direction_on_same_object]", ["C15"], FM + "FPFormat." + _w, {"rounding": "nearest", "after_other_direction_on_same_object": True}, _ste_job(_w, "nearest", False, True), shared=True))
 for _w in ("quantise_fwd", "quantise_bwd"):
     for _r, _s in (("nearest", False), ("stochastic", False), ("stochastic", True)):
         register(Job(f"c15:{_w}[{_r},srbits_given={_s}]", ["C15", "C14"] if _r == "stochastic" else ["C15"], FM + "FPFormat." + _w, {"rounding": _r, "srbits_given": _s}, _ste_job(_w, _r, _s), shared=True))
